@@ -26,7 +26,9 @@ RULE = ("case = history in a fresh Cello Thread (own collector): managed / root 
         "displaced or wrapped entry AND a removal while entries were displaced AND both a growth and a shrink of the registry. "
         "distinct = distinct case JSON.")
 ASSUMPTIONS = ["finalisation is observed through the instrumented objects' destructors; conservative retention only delays it, the oracle follows the observed events",
-               "registry internals read through Cello_Verif_GC_Stat/Entry (add-only hooks)"]
+               "registry internals read through Cello_Verif_GC_Stat/Entry (add-only hooks)",
+               "constructors, assign and copy of the library containers / Thread register nothing but the object itself (observed: their internal storage is malloc'd or new_raw), so every registry entry must be a ledger object",
+               "membership of objects allocated while the collector is stopped is not asserted while they are alive (documented as not added; the property's wording would also admit them); once deleted they must not be members"]
 
 prepare = gcx.prepare
 
